@@ -32,3 +32,9 @@ META = dict(
     explanation='inductive step of the real play engine over bit-set hands + BMC of the first tricks',
     required_outcomes=['constructed', 'has_done', 'card 1 of a trick', 'card 4 of a trick', 'ran'],
 )
+
+
+def validate(tier):
+    """translator validation: the interpreter in concrete mode against CPython on the functions this check encodes"""
+    from engine import validate as v
+    return v.run(['plays'], tier)
